@@ -105,6 +105,7 @@ func VP_C09_stalled_client() {
 	tr := vpScript(4, 0)
 	tr.yieldOnRead = true
 	tr.clientGone = true
+	tr.countOverlaps = true
 	tr.pauseAt = 5 // before the read that finds the connection dropped
 	vpBackendReads = [][]byte{{1, 2}, {3, 4}}
 	vpAssume(!vpBool("dialfail1"))
@@ -130,7 +131,7 @@ func VP_C09_accept_in_flight() {
 		r := &http.Request{Method: method, Header: http.Header{"Rdg-Connection-Id": {"conn-1"}}}
 		return identity.AddToRequestCtx(id, r)
 	}
-	out, in := &vpTransport{}, vpScript(1, 0)
+	out, in := &vpTransport{countOverlaps: true}, vpScript(1, 0)
 	out.onAccept = func() {
 		g.HandleGatewayProtocol(&vpHTTPW{hdr: http.Header{}, tr: in}, mk(MethodRDGIN))
 	}
